@@ -1,6 +1,8 @@
 import YowsupVerif.Audit
-import YowsupVerif.Model.Bytes
-import YowsupVerif.Model.Segments
-import YowsupVerif.Lemmas.Segments
+import YowsupVerif.Props.C01
+import YowsupVerif.Props.C02
 import YowsupVerif.Props.C05
+import YowsupVerif.Props.C18
 import YowsupVerif.Drv.Segments
+import YowsupVerif.Drv.Coder
+import YowsupVerif.Drv.Stack
